@@ -152,6 +152,9 @@ structure St where
   dq : List Entry := []
   /-- newest first -/
   log : List LogEntry := []
+  /-- (ghost) the number of polls so far that made no observation: a task that was deferred by the cooperative
+  budget at an await that cannot complete registers there when it is polled again -/
+  silent : Nat := 0
   deriving DecidableEq, Repr, Inhabited
 
 structure Params where
@@ -312,8 +315,8 @@ def pollTask (P : Params) (e : Entry) (s : St) : St :=
   | none => s
   | some tk =>
     if tk.done then s
-    else if tk.polled then runProg e.kind e.idx tk.prog P.C e.ready e.origin s
-    else runProg e.kind e.idx tk.prog P.C s.now s.phase (logAt (markPolled s e.idx) e.idx e.ready e.origin)
+    else if tk.polled then runProg tk.kind e.idx tk.prog P.C e.ready e.origin s
+    else runProg tk.kind e.idx tk.prog P.C s.now s.phase (logAt (markPolled s e.idx) e.idx e.ready e.origin)
 
 /-- `next_task()`: the LocalSet pops its queue; the runtime (`Core::next_task`) ticks and looks at the inject
 queue first on every `G`-th tick, else at its local queue first -/
@@ -335,11 +338,16 @@ def pop (P : Params) (q : Kind) (s : St) : Option (Entry × St) :=
       | [], e :: r => some (e, { s with iq := r, tick := s.tick + 1 })
       | [], [] => none
 
+/-- (ghost) count a poll that added nothing to the log -/
+def noteSilent (before r : St) : St :=
+  if r.log.length = before.log.length then { r with silent := r.silent + 1 } else r
+
 /-- pop the next task of queue `q` and poll it -/
 def step (P : Params) (q : Kind) (s : St) : St :=
   match pop P q s with
   | none => s
-  | some (e, s') => pollTask P e s'
+  | some (e, s') =>
+    noteSilent s' (pollTask P e s')
 
 /-- `for _ in 0..b { match next_task() { Some(t) => t.run(), None => break } }` -/
 def runQ (P : Params) (q : Kind) : Nat → St → St
